@@ -741,10 +741,12 @@ func (p *Parser) parseContentLength() (err error) {
 				break
 			}
 		}
-		l, err := strconv.ParseInt(cl, 10, 63)
+		// Content-Length = 1*DIGIT, a sign is not allowed.
+		ul, err := strconv.ParseUint(cl, 10, 63)
 		if err != nil {
 			return fmt.Errorf("%s %q", "bad Content-Length", cl)
 		}
+		l := int64(ul)
 		if l < 0 {
 			return fmt.Errorf("length less than zero (%d): %w", l, ErrInvalidContentLength)
 		}
